@@ -243,13 +243,10 @@ func c10Join(r *core.Run, op string, d ref.DT, shapes [][]int, lays []string, ax
 			tag := ""
 			if o.Class == "panic" && op != "Stack" {
 				// precondition of F-C10-concat-vector-shaped-view: operands of shape (1,n)/(n,1), one of them needing an iterator
-				vec, iter := true, false
+				vec, iter := false, true
 				for i, b := range bs {
-					if !(len(shapes[i]) == 2 && tensor.Shape(shapes[i]).IsVector()) {
-						vec = false
-					}
-					if b.T.RequiresIterator() {
-						iter = true
+					if len(shapes[i]) == 2 && tensor.Shape(shapes[i]).IsVector() && b.T.RequiresIterator() {
+						vec = true
 					}
 				}
 				if vec && iter {
